@@ -325,6 +325,40 @@ func runCase(rq *request) M {
 	if src == "" && rq.Ast != nil {
 		src = unparse(rq.Ast)
 	}
+	if _, ok := rq.Flags["rxp"]; ok {
+		// a regular-expression literal written out from its pattern text and flags (MC_C17R); whether the
+		// engine accepts the pattern is recorded as part of the environment
+		pat := strings.ReplaceAll(cpsToString(rq.Flags["rxp"]), "/", `\/`)
+		fl := cpsToString(rq.Flags["rxf"])
+		lit := "/" + pat + "/" + fl
+		full := pat
+		if fl != "" {
+			full = "(?" + fl + ")" + pat
+		}
+		_, rerr := regexp.Compile(full)
+		ev["rx_invalid"] = pat == "" || rerr != nil
+		ev["flags"] = rq.Flags
+		switch rq.Flags["rxuse"] {
+		case "match":
+			src = "$match($, " + lit + ")"
+		case "contains":
+			src = "$contains($, " + lit + ")"
+		case "split":
+			src = "$split($, " + lit + ")"
+		case "replace":
+			src = "$replace($, " + lit + `, "<$0>")`
+		case "call":
+			src = "(" + lit + ")($).match"
+		case "assign":
+			src = "($r := " + lit + "; $r($).start)"
+		case "map":
+			src = "$map([$, \"b\"], " + lit + ").end"
+		case "arg":
+			src = "$count([" + lit + "])"
+		default:
+			src = "$type(" + lit + ")"
+		}
+	}
 	ev["src"] = cps(src)
 	ev["inp"] = rq.Inp
 	if len(rq.Binds) > 0 {
